@@ -2,6 +2,7 @@ import Cpppo.Proofs.ConcurrentArr
 import Cpppo.Proofs.ConcurrentLgx
 import Cpppo.Proofs.Forwards
 import Cpppo.Proofs.ForwardsThreads
+import Cpppo.Proofs.ForwardsSpec
 
 /-!
 # C09 — Concurrent sessions are isolated and each request is atomic
@@ -529,6 +530,19 @@ example :
     (∀ s < 3, (st.thr s).finished = true) ∧ st.hist.map (·.1) = [0, 1, 0, 1] ∧
     (st.thr 0).sent = [[[.opened, .viaPccc]], [[.viaPccc]]] ∧ (st.thr 1).sent = [[[.closed]], [[.ended]]] := by
   decide +kernel
+
+/-- **Refinement to the simplest specification.**  Over every operation sequence from the empty table, the
+insertion-ordered list the model keeps (as the code keeps a dict) behaves exactly like a partial map
+`(peer, connection ID) → Option (serial, target)` (`Spec.step`: open = insert when absent, else refuse; close =
+forget this peer's entries with that serial; end = forget this peer's entries; Connected request = look up): every
+answer is the abstract map's answer, and every lookup in the final table is the abstract map's value. -/
+theorem table_refines_map (ops : List Op) :
+    (∀ k, lookup (run [] ops).1 k = (Spec.run (fun _ => none) ops).1 k)
+    ∧ (run [] ops).2 = (Spec.run (fun _ => none) ops).2 := by
+  have h := run_refines ops [] (by simp [KeysNodup])
+  have h0 : lookup ([] : Table) = fun _ => none := rfl
+  rw [h0] at h
+  exact h
 
 /-- the table is a dict: keys stay unique over every operation sequence -/
 theorem table_keys_unique (ops : List Op) : KeysNodup (run [] ops).1 :=
